@@ -303,7 +303,13 @@ def main(argv=None):
         rc = max(rc, 1)
     if ctx.harness_errors:
         e = ctx.harness_errors[0]
-        print(f'HARNESS-ERROR {len(ctx.harness_errors)} run(s) failed in the harness: {json.dumps(e["err"], default=jdefault)[:1500]}', flush=True)
+        hp = None
+        if e.get('case') is not None:
+            os.makedirs(os.path.join(engine.OUT, 'replays'), exist_ok=True)
+            hp = os.path.join(engine.OUT, 'replays', f'{prop.ID}_harness_error.json')
+            with open(hp, 'w') as fh:
+                json.dump({'property': prop.ID, 'signature': 'harness-error', 'case': e['case'], 'err': e['err']}, fh, indent=1, default=jdefault)
+        print(f'HARNESS-ERROR {len(ctx.harness_errors)} run(s) failed in the harness: {json.dumps(e["err"], default=jdefault)[:1500]} case={hp}', flush=True)
         rc = max(rc, 2)
     wall = time.time() - t0
     if not a.no_evidence:
